@@ -17,7 +17,7 @@ from pathlib import Path
 
 from . import vtime
 from .common import WORK, Machinery, Report, import_redress, seed
-from .tlc import SPEC, TLCError, run_tlc
+from .tlc import SPEC, TLCError, pick_cfg, run_tlc
 
 ALL_CLASSES = ["AUTH", "PERMISSION", "PERMANENT", "CONCURRENCY", "RATE_LIMIT", "SERVER_ERROR",
                "TRANSIENT", "UNKNOWN"]
@@ -95,7 +95,7 @@ def class_map(rng: random.Random) -> dict[str, str]:
 # TLC: model checking + graph export
 # ---------------------------------------------------------------------------
 def model_check(tier: str) -> dict:
-    cfg = "BreakerMC_quick.cfg" if tier == "quick" else "BreakerMC_thorough.cfg"
+    cfg = pick_cfg("BreakerMC_quick", tier)
     res = run_tlc("BreakerMC.tla", cfg, tag="brk-mc", timeout=3000)
     if not res.ok:
         raise Machinery(f"spec-level counterexample in BreakerMC ({res.violated}); the model is "
@@ -105,7 +105,7 @@ def model_check(tier: str) -> dict:
 
 
 def export_graph(tier: str):
-    cfg = "BreakerMC_export.cfg" if tier == "quick" else "BreakerMC_export_thorough.cfg"
+    cfg = pick_cfg("BreakerMC_export", tier)
     res = run_tlc("BreakerMC.tla", cfg, tag="brk-exp", timeout=3000)
     if not res.ok:
         raise Machinery(f"BreakerMC export run violated {res.violated}")
